@@ -16,6 +16,16 @@ PROP = 'C11'
 VARIANTS = ['bare']
 MAX_OPS = 40
 ALIEN_SYMBOL = 'ozt'
+
+
+class BusinessDate(dt.date):
+    """a date of a calendar of the caller's"""
+
+
+class YearNumber(int):
+    """an int with a name (what an IntEnum member is)"""
+
+
 CLOCK_ERRORS_BY_NAME = {e.__name__: e for e in (
     KeyError, LookupError, IndexError, ValueError, AttributeError, TypeError,
     RuntimeError, OSError, StopIteration, ArithmeticError)}
@@ -79,7 +89,10 @@ def _spell_validity(rng, kind, d: dt.date):
         return {'t': 'none'}
     if kind == 'year':
         return rng.choice([{'t': 'int', 'v': d.year},
-                           {'t': 'str', 'v': f"{d.year:04d}"}])
+                           {'t': 'str', 'v': f"{d.year:04d}"},
+                           {'t': 'int', 'v': d.year},
+                           # an int is an int, also as member of an IntEnum
+                           {'t': 'int_sub', 'v': d.year}])
     if kind == 'month':
         return rng.choice([
             {'t': 'tuple_int', 'v': [d.year, d.month]},
@@ -90,7 +103,11 @@ def _spell_validity(rng, kind, d: dt.date):
             {'t': 'tuple_mixed', 'v': [f"{d.year:04d}", d.month]},
             {'t': 'str', 'v': f"{d.year:04d}-{d.month:02d}"}])
     return rng.choice([{'t': 'date', 'v': d.isoformat()},
-                       {'t': 'str', 'v': d.isoformat()}])
+                       {'t': 'str', 'v': d.isoformat()},
+                       {'t': 'date', 'v': d.isoformat()},
+                       # a date is a date, also as instance of a sub-class
+                       # (a business calendar's date, a test double)
+                       {'t': 'date_sub', 'v': d.isoformat()}])
 
 
 INVALID_VALIDITIES = [
@@ -485,7 +502,7 @@ class RefRates:
         try:
             if t == 'none':
                 return 'none', ()
-            if t == 'int':
+            if t in ('int', 'int_sub'):
                 if 1 <= x <= 9999:
                     return 'year', (x,)
                 return None
@@ -495,7 +512,7 @@ class RefRates:
                 if 1 <= y <= 9999 and 1 <= m <= 12:
                     return 'month', (y, m)
                 return None
-            if t == 'date':
+            if t in ('date', 'date_sub'):
                 d = dt.date.fromisoformat(x)
                 return 'day', (d.year, d.month, d.day)
             if t == 'str':
@@ -715,6 +732,10 @@ def execute(h):
             return list(x)
         if t == 'date':
             return dt.date.fromisoformat(x)
+        if t == 'date_sub':
+            return BusinessDate.fromisoformat(x)
+        if t == 'int_sub':
+            return YearNumber(x)
         if t == 'datetime':
             return dt.datetime.fromisoformat(x)
         raise core.HarnessError(f"validity {v}")
